@@ -16,6 +16,28 @@ NOTES = ('Every check executes the implementation in /repo/src (working tree) '
          'DESIGN.md.')
 
 CHECKS = [
+    {'id': 'C19', 'engine': 'explore', 'level': 'exploration',
+     'design_ref': 'DESIGN.md §4 C19',
+     'technique': 'bounded exhaustive enumeration of thread histories over a '
+                  'harness-owned virtual thread table (running idents, '
+                  'threading registry, fresh vs recycled ident allocation) '
+                  'against the real per-test thread report; real-thread '
+                  'conformance subset',
+     'text': 'Two-test (thorough: three-test) histories where each test '
+             'starts <=2 threads of 8 kinds (threading/_thread, blocked / '
+             'finished, touched threading.current_thread(), named to match / '
+             'not match --ignore-new-thread), every blocked thread of the '
+             'first test is released never / inside the next test before or '
+             'after its own threads / between the tests in a layer hook, a '
+             'layer hook may start a thread between tests, two threads '
+             'pre-exist, and new threads get fresh or recycled idents; the '
+             '"left new threads behind" blocks must name exactly the threads '
+             'started in that test, still running at its end and not ignored. '
+             'A subset is replayed with real threads.',
+     'note': 'The thread table the runner inspects is virtual (that is how '
+             'ident recycling is enumerated instead of hoped for); real '
+             'threads are used for single-thread histories only. One known '
+             'finding (recycled ident hides a leak) is listed.'},
     {'id': 'C18', 'engine': 'explore', 'level': 'exploration',
      'design_ref': 'DESIGN.md §4 C18',
      'technique': 'bounded exhaustive enumeration of option subsets x ways '
